@@ -127,9 +127,13 @@ def body(case, rec, H=None):
     # the same analysis on the exported bipartite graph must agree (documented alternative input)
     from synkit.CRN.Hypergraph.conversion import hypergraph_to_bipartite
 
-    s2 = DeficiencyAnalyzer(hypergraph_to_bipartite(H)).compute_crn_deficiency().summary
-    if (s2.n_complexes, s2.n_linkage_classes, s2.deficiency, s2.weakly_reversible) != (s.n_complexes, s.n_linkage_classes, s.deficiency, s.weakly_reversible):
-        raise Violation("bipartite-input", f"{where}: summary differs between hypergraph and bipartite input")
+    Gb = hypergraph_to_bipartite(H)
+    # the arcs carry their meaning in the 'role' attribute: the exported graph and the same graph with every arc
+    # reversed are the same network (an undirected copy is not: it merges the two arcs of a catalyst)
+    for how, Gx in (("as exported", Gb), ("arcs reversed", Gb.reverse(copy=True))):
+        s2 = DeficiencyAnalyzer(Gx).compute_crn_deficiency().summary
+        if (s2.n_complexes, s2.n_linkage_classes, s2.deficiency, s2.weakly_reversible) != (s.n_complexes, s.n_linkage_classes, s.deficiency, s.weakly_reversible):
+            raise Violation("bipartite-input", f"{where}: summary differs between hypergraph and bipartite input ({how})")
 
 
 def body_after_edit(case, rec):
